@@ -24,6 +24,7 @@ func TestMain(m *testing.M) { evid.Main(m, "C01") }
 
 // Case is the replayable form of one differential case.
 type Case struct {
+	Lib    *wasmgen.Module `json:"lib,omitempty"` // second module instantiated as "lib"; Module imports some of its exports
 	Module *wasmgen.Module `json:"module"`
 	Script []runner.Call   `json:"script"`
 	Fuel   int32           `json:"fuel"`
@@ -98,8 +99,16 @@ func Script(t *rapid.T, m *wasmgen.Module) []runner.Call {
 
 func prop(t *rapid.T) {
 	cfg := drawConfig(t)
+	var lib *wasmgen.Module
+	if rapid.IntRange(0, 3).Draw(t, "withlib") == 0 {
+		lcfg := cfg
+		lcfg.HostModule, lcfg.ModuleName, lcfg.AllowStart = "env2", "lib", false
+		lcfg.MaxFuncs = rapid.IntRange(1, 6).Draw(t, "libfuncs")
+		lib = wasmgen.Generate(t, lcfg)
+		cfg.Lib, cfg.LibName = lib, "lib"
+	}
 	m := wasmgen.Generate(t, cfg)
-	c := &Case{Module: m, Script: Script(t, m), Fuel: cfg.FuelInit}
+	c := &Case{Module: m, Lib: lib, Script: Script(t, m), Fuel: cfg.FuelInit}
 	evid.Journal(c)
 	if msg, labels, nt := RunCase(c); msg != "" {
 		evid.Fail(t, c, "%s\n%s", msg, strings.Join(m.Text, "\n"))
@@ -118,7 +127,7 @@ func prop(t *rapid.T) {
 // RunCase executes the case on both engines; it returns a violation message (or ""),
 // generator-health labels and whether the case is non-trivial.
 func RunCase(c *Case) (msg string, labels []string, nontrivial bool) {
-	opt := runner.Options{FuelPerCall: c.Fuel}
+	opt := runner.Options{FuelPerCall: c.Fuel, Lib: c.Lib}
 	ti := runner.Run(wz.Config("interpreter"), c.Module, c.Script, opt)
 	tc := runner.Run(wz.Config("compiler"), c.Module, c.Script, opt)
 	for _, x := range []struct {
@@ -134,6 +143,9 @@ func RunCase(c *Case) (msg string, labels []string, nontrivial bool) {
 	}
 	if ti.HasKind(wz.KStack) || tc.HasKind(wz.KStack) {
 		return "", []string{"discarded-stack-overflow"}, false
+	}
+	if ti.Inst.Kind == "lib-failed" && tc.Inst.Kind == "lib-failed" {
+		return "", []string{"discarded-lib-start-failed"}, false
 	}
 	if d := runner.Diff(&ti, &tc, "interpreter", "compiler"); d != "" {
 		return "engines disagree: " + d, nil, false
@@ -160,6 +172,9 @@ func RunCase(c *Case) (msg string, labels []string, nontrivial bool) {
 	}
 	if len(ti.HostLog) > 0 {
 		labels = append(labels, "host-calls")
+	}
+	if c.Lib != nil {
+		labels = append(labels, "cross-module-calls")
 	}
 	for _, k := range []string{"simd", "atomic", "tailcall", "memory.grow", "call_indirect", "br_table", "loop", "table.set", "memory.init"} {
 		if st[k] > 0 {
